@@ -23,6 +23,7 @@ KNOWN_RULES = [
     (r"DUP-TEXT|DUP-ERR", r"(.*,)?version-filter(,.*)?", "C13-dup-version-filter"),
     (r"DUP-TEXT", r"(.*,)?foreign-membership(,.*)?", "C13-dup-foreign-membership"),
     (r"NOT-FINDABLE", r"nameless", "C13-copy-nameless-shortname"),
+    (r"VALIDATE", r"(.*,)?name-too-long(,.*)?", "C13-copy-name-too-long"),
 ]
 
 
